@@ -252,3 +252,80 @@ func genLoadCheck(dir string, tc *conformancev1.TestCase, configCases []configCa
 	}
 	return "ok"
 }
+
+// genShape derives a few tags from a generated case (which response
+// definition shape it has); they appear in the failure detail so that a
+// known-finding signature can name the failing input shape precisely.
+func genShape(tc *conformancev1.TestCase) string {
+	var hdrs, trls []*conformancev1.Header
+	responses, hasErr, found := 0, false, false
+	for _, a := range tc.Request.RequestMessages {
+		m, err := a.UnmarshalNew()
+		if err != nil {
+			continue
+		}
+		switch r := m.(type) {
+		case *conformancev1.UnaryRequest:
+			if d := r.ResponseDefinition; d != nil && !found {
+				found = true
+				hdrs, trls = d.ResponseHeaders, d.ResponseTrailers
+				if d.GetError() != nil {
+					hasErr = true
+				} else {
+					responses = 1
+				}
+			}
+		case *conformancev1.IdempotentUnaryRequest:
+			if d := r.ResponseDefinition; d != nil && !found {
+				found = true
+				hdrs, trls = d.ResponseHeaders, d.ResponseTrailers
+				if d.GetError() != nil {
+					hasErr = true
+				} else {
+					responses = 1
+				}
+			}
+		case *conformancev1.ClientStreamRequest:
+			if d := r.ResponseDefinition; d != nil && !found {
+				found = true
+				hdrs, trls = d.ResponseHeaders, d.ResponseTrailers
+				if d.GetError() != nil {
+					hasErr = true
+				} else {
+					responses = 1
+				}
+			}
+		case *conformancev1.ServerStreamRequest:
+			if d := r.ResponseDefinition; d != nil && !found {
+				found = true
+				hdrs, trls, responses, hasErr = d.ResponseHeaders, d.ResponseTrailers, len(d.ResponseData), d.Error != nil
+			}
+		case *conformancev1.BidiStreamRequest:
+			if d := r.ResponseDefinition; d != nil && !found {
+				found = true
+				hdrs, trls, responses, hasErr = d.ResponseHeaders, d.ResponseTrailers, len(d.ResponseData), d.Error != nil
+			}
+		}
+	}
+	tags := []string{fmt.Sprintf("response-messages=%d", responses)}
+	if hasErr {
+		tags = append(tags, "with-error")
+	} else {
+		tags = append(tags, "without-error")
+	}
+	same := false
+	for _, h := range hdrs {
+		for _, t := range trls {
+			if strings.EqualFold(h.Name, t.Name) {
+				same = true
+			}
+		}
+	}
+	if same {
+		tags = append(tags, "same-name-in-response-headers-and-trailers")
+	}
+	if !found {
+		tags = append(tags, "no-response-definition")
+	}
+	return strings.Join(tags, " ")
+}
